@@ -8,7 +8,7 @@ set_option linter.unusedSectionVars false
 set_option linter.unusedVariables false
 
 namespace Anko
-variable [FOps]
+variable [FOps] [Prov]
 
 def St.parents (s : St) : List (Option Nat) := s.scopes.toList.map (·.parent)
 
